@@ -1,0 +1,28 @@
+//go:build verif
+
+package mathx
+
+import (
+	"math/rand"
+	"sync"
+)
+
+// VerifNewUnstable builds an Unstable whose random draws come from src (build tag verif).
+func VerifNewUnstable(deviation float64, src rand.Source) Unstable {
+	if deviation < 0 {
+		deviation = 0
+	}
+	if deviation > 1 {
+		deviation = 1
+	}
+	return Unstable{
+		deviation: deviation,
+		r:         rand.New(src),
+		lock:      new(sync.Mutex),
+	}
+}
+
+// VerifNewProba builds a Proba whose random draws come from src (build tag verif).
+func VerifNewProba(src rand.Source) *Proba {
+	return &Proba{r: rand.New(src)}
+}
